@@ -295,118 +295,7 @@ func runC13(c *core.Ctx) {
 			"checkpoints are popped between messages only", "PopCheckpoint is reachable from inside ReadMessage: a checkpoint offset can fall in the middle of a message")
 	}
 
-	// ---- R13.3
-	algName := map[int64]string{}
-	if pk := c.P.Pkg("pwr"); pk != nil {
-		for _, n := range pk.Types.Scope().Names() {
-			if k, ok := pk.Types.Scope().Lookup(n).(*types.Const); ok && strings.HasPrefix(n, "CompressionAlgorithm_") {
-				v, _ := constInt64(k)
-				algName[v] = strings.TrimPrefix(n, "CompressionAlgorithm_")
-			}
-		}
-	}
-	regs := map[string]map[int64][]types.Type{"RegisterCompressor": {}, "RegisterDecompressor": {}}
-	nReg := 0
-	for _, fn := range c.P.SrcFuncs() {
-		for kind := range regs {
-			for _, cl := range core.Calls(fn, false, "pwr."+kind) {
-				nReg++
-				if k, isC := core.ConstInt(cl.Common().Args[0]); isC {
-					regs[kind][k] = append(regs[kind][k], core.StripConv(cl.Common().Args[1]).Type())
-				} else {
-					c.Bad("R13.3", core.FnName(fn), kind+" with a non-constant algorithm", core.InstrPos(cl.(ssa.Instruction)), "registration with a non-constant algorithm cannot be paired statically")
-				}
-			}
-		}
-	}
-	var algs []int64
-	seen := map[int64]bool{}
-	for _, m := range regs {
-		for k := range m {
-			if !seen[k] {
-				seen[k] = true
-				algs = append(algs, k)
-			}
-		}
-	}
-	sort.Slice(algs, func(i, j int) bool { return algs[i] < algs[j] })
-	for _, k := range algs {
-		hc, hd := len(regs["RegisterCompressor"][k]) > 0, len(regs["RegisterDecompressor"][k]) > 0
-		c.Check(hc && hd, "R13.3", "pwr.Register*", "algorithm "+algName[k]+" has both a compressor and a decompressor", token.NoPos,
-			"registered on both sides", "algorithm "+algName[k]+" is registered on one side only: streams written with it cannot be read back (or vice versa)")
-		for kind, m := range regs {
-			for _, t := range m[k] {
-				ms := c.P.SSA.MethodSets.MethodSet(t)
-				sel := ms.Lookup(nil, "Apply")
-				if sel == nil {
-					continue
-				}
-				apply := c.P.SSA.MethodValue(sel)
-				if apply == nil || apply.Blocks == nil {
-					continue
-				}
-				okName, ctor := false, ""
-				for _, rs := range core.Returns(apply, 0) {
-					for _, o := range core.Origins(rs.Val) {
-						var cl *ssa.Call
-						switch x := o.(type) {
-						case *ssa.Call:
-							cl = x
-						case *ssa.Extract:
-							cl, _ = x.Tuple.(*ssa.Call)
-						}
-						if cl == nil {
-							continue
-						}
-						if f := cl.Call.StaticCallee(); f != nil {
-							ctor = core.FnName(f)
-							if strings.Contains(strings.ToLower(core.PkgPathOf(f)), strings.ToLower(algName[k])) {
-								okName = true
-							}
-						}
-					}
-				}
-				c.Check(okName, "R13.3", core.FnName(apply), kind+"("+algName[k]+") builds a "+strings.ToLower(algName[k])+" stream", apply.Pos(),
-					"constructor "+ctor+" comes from a package named after the algorithm", "the codec registered for "+algName[k]+" builds its stream with "+ctor+", which is not a "+strings.ToLower(algName[k])+" implementation: the other side cannot decode it")
-			}
-		}
-	}
-	c.Floor("R13.3", "codec registrations", nReg, 5)
-	c.Floor("R13.3", "algorithms", len(algs), 2)
-	// NONE is a pass-through on both sides; unregistered algorithm is an error
-	for _, nm := range []string{"CompressWire", "DecompressWire"} {
-		fn := c.P.Fn("pwr", nm)
-		if fn == nil {
-			c.Missing("R13.3", "pwr."+nm, "not found")
-			continue
-		}
-		noneTest := false
-		core.Instrs(fn, func(in ssa.Instruction) {
-			if ifi, ok := in.(*ssa.If); ok {
-				if bo, ok := ifi.Cond.(*ssa.BinOp); ok && bo.Op == token.EQL {
-					if _, n, ok := core.FieldOf(bo.X); ok && n == "Algorithm" {
-						if k, isC := core.ConstInt(bo.Y); isC && algName[k] == "NONE" {
-							noneTest = true
-						}
-					}
-				}
-			}
-		})
-		c.Check(noneTest, "R13.3", core.FnName(fn), "NONE is special-cased (pass-through)", fn.Pos(), "Algorithm == NONE is tested", "the NONE algorithm is no longer a pass-through in "+nm)
-		// the registry lookup result is nil-checked with an error return
-		lookups := allInstrs(fn, func(in ssa.Instruction) bool { _, ok := in.(*ssa.Lookup); return ok })
-		okNil := false
-		for _, lk := range lookups {
-			core.Instrs(fn, func(in ssa.Instruction) {
-				if ifi, ok := in.(*ssa.If); ok {
-					if bo, ok := ifi.Cond.(*ssa.BinOp); ok && bo.Op == token.EQL && core.IsNilConst(bo.Y) && sharesOrigin(bo.X, lk.(*ssa.Lookup)) {
-						okNil = true
-					}
-				}
-			})
-		}
-		c.Check(okNil, "R13.3", core.FnName(fn), "unregistered algorithm is an error", fn.Pos(), "the registry lookup is nil-checked", "an unregistered algorithm is not rejected in "+nm)
-	}
+	ruleCodecPairing(c, "R13.3")
 
 	// ---- R13.4 magic pairing
 	written, expected := map[int64][]string{}, map[int64][]string{}
@@ -493,4 +382,121 @@ func extractOf(v ssa.Value, call *ssa.Call, idx int) bool {
 		}
 	}
 	return false
+}
+
+// ruleCodecPairing (R13.3, shared with C01's "for every compression setting").
+func ruleCodecPairing(c *core.Ctx, rule string) {
+	// ---- R13.3
+	algName := map[int64]string{}
+	if pk := c.P.Pkg("pwr"); pk != nil {
+		for _, n := range pk.Types.Scope().Names() {
+			if k, ok := pk.Types.Scope().Lookup(n).(*types.Const); ok && strings.HasPrefix(n, "CompressionAlgorithm_") {
+				v, _ := constInt64(k)
+				algName[v] = strings.TrimPrefix(n, "CompressionAlgorithm_")
+			}
+		}
+	}
+	regs := map[string]map[int64][]types.Type{"RegisterCompressor": {}, "RegisterDecompressor": {}}
+	nReg := 0
+	for _, fn := range c.P.SrcFuncs() {
+		for kind := range regs {
+			for _, cl := range core.Calls(fn, false, "pwr."+kind) {
+				nReg++
+				if k, isC := core.ConstInt(cl.Common().Args[0]); isC {
+					regs[kind][k] = append(regs[kind][k], core.StripConv(cl.Common().Args[1]).Type())
+				} else {
+					c.Bad(rule, core.FnName(fn), kind+" with a non-constant algorithm", core.InstrPos(cl.(ssa.Instruction)), "registration with a non-constant algorithm cannot be paired statically")
+				}
+			}
+		}
+	}
+	var algs []int64
+	seen := map[int64]bool{}
+	for _, m := range regs {
+		for k := range m {
+			if !seen[k] {
+				seen[k] = true
+				algs = append(algs, k)
+			}
+		}
+	}
+	sort.Slice(algs, func(i, j int) bool { return algs[i] < algs[j] })
+	for _, k := range algs {
+		hc, hd := len(regs["RegisterCompressor"][k]) > 0, len(regs["RegisterDecompressor"][k]) > 0
+		c.Check(hc && hd, rule, "pwr.Register*", "algorithm "+algName[k]+" has both a compressor and a decompressor", token.NoPos,
+			"registered on both sides", "algorithm "+algName[k]+" is registered on one side only: streams written with it cannot be read back (or vice versa)")
+		for kind, m := range regs {
+			for _, t := range m[k] {
+				ms := c.P.SSA.MethodSets.MethodSet(t)
+				sel := ms.Lookup(nil, "Apply")
+				if sel == nil {
+					continue
+				}
+				apply := c.P.SSA.MethodValue(sel)
+				if apply == nil || apply.Blocks == nil {
+					continue
+				}
+				okName, ctor := false, ""
+				for _, rs := range core.Returns(apply, 0) {
+					for _, o := range core.Origins(rs.Val) {
+						var cl *ssa.Call
+						switch x := o.(type) {
+						case *ssa.Call:
+							cl = x
+						case *ssa.Extract:
+							cl, _ = x.Tuple.(*ssa.Call)
+						}
+						if cl == nil {
+							continue
+						}
+						if f := cl.Call.StaticCallee(); f != nil {
+							ctor = core.FnName(f)
+							if strings.Contains(strings.ToLower(core.PkgPathOf(f)), strings.ToLower(algName[k])) {
+								okName = true
+							}
+						}
+					}
+				}
+				c.Check(okName, rule, core.FnName(apply), kind+"("+algName[k]+") builds a "+strings.ToLower(algName[k])+" stream", apply.Pos(),
+					"constructor "+ctor+" comes from a package named after the algorithm", "the codec registered for "+algName[k]+" builds its stream with "+ctor+", which is not a "+strings.ToLower(algName[k])+" implementation: the other side cannot decode it")
+			}
+		}
+	}
+	c.Floor(rule, "codec registrations", nReg, 5)
+	c.Floor(rule, "algorithms", len(algs), 2)
+	// NONE is a pass-through on both sides; unregistered algorithm is an error
+	for _, nm := range []string{"CompressWire", "DecompressWire"} {
+		fn := c.P.Fn("pwr", nm)
+		if fn == nil {
+			c.Missing(rule, "pwr."+nm, "not found")
+			continue
+		}
+		noneTest := false
+		core.Instrs(fn, func(in ssa.Instruction) {
+			if ifi, ok := in.(*ssa.If); ok {
+				if bo, ok := ifi.Cond.(*ssa.BinOp); ok && bo.Op == token.EQL {
+					if _, n, ok := core.FieldOf(bo.X); ok && n == "Algorithm" {
+						if k, isC := core.ConstInt(bo.Y); isC && algName[k] == "NONE" {
+							noneTest = true
+						}
+					}
+				}
+			}
+		})
+		c.Check(noneTest, rule, core.FnName(fn), "NONE is special-cased (pass-through)", fn.Pos(), "Algorithm == NONE is tested", "the NONE algorithm is no longer a pass-through in "+nm)
+		// the registry lookup result is nil-checked with an error return
+		lookups := allInstrs(fn, func(in ssa.Instruction) bool { _, ok := in.(*ssa.Lookup); return ok })
+		okNil := false
+		for _, lk := range lookups {
+			core.Instrs(fn, func(in ssa.Instruction) {
+				if ifi, ok := in.(*ssa.If); ok {
+					if bo, ok := ifi.Cond.(*ssa.BinOp); ok && bo.Op == token.EQL && core.IsNilConst(bo.Y) && sharesOrigin(bo.X, lk.(*ssa.Lookup)) {
+						okNil = true
+					}
+				}
+			})
+		}
+		c.Check(okNil, rule, core.FnName(fn), "unregistered algorithm is an error", fn.Pos(), "the registry lookup is nil-checked", "an unregistered algorithm is not rejected in "+nm)
+	}
+
 }
